@@ -14,6 +14,11 @@ if os.environ.get("PYTHONHASHSEED") is None:
     os.environ.setdefault("PYTHONDONTWRITEBYTECODE", "1")
     os.execv(sys.executable, [sys.executable] + sys.argv)
 
+# Nothing the harness runs may ever wait on the real terminal or read the caller's stdin.
+_dn = os.open(os.devnull, os.O_RDONLY)
+os.dup2(_dn, 0)
+os.close(_dn)
+
 import sim  # noqa: E402
 
 sim.use_repo()
